@@ -47,9 +47,9 @@ def gen_cat(direction, t, blocks, tier):
     else:
         C = blocks[0][1][1]
         R = sum(s[0] for _, s in blocks)
-    b.append("let args: Vec<Value> = vec![%s];" % ", ".join("bv%d" % k for k in range(len(blocks))))
+    b.append("let args = [%s];" % ", ".join("bv%d" % k for k in range(len(blocks))))
     b.append("kani::cover!(true, \"VP:reached-call\");")
-    b.append("match %s(&args) {" % fxn)
+    b.append("match vp_%s(&args[..]) {" % fxn)
     b.append("  Err(e) => { forget(e); assert!(false, \"VP:rejected-compatible-blocks\"); }")
     b.append("  Ok(f) => {")
     b.append("    f.solve();")
@@ -110,8 +110,15 @@ def plan(tier, seed):
         hs.append(gen_cat("v", t, c, "quick" if k % 4 == (seed + 1) % 4 else "thorough"))
     hs.append(gen_cat("h", "u8", [(RD, (1, 2)), (S, (1, 1))], "thorough"))
     hs.append(gen_cat("v", "u8", [(RD, (1, 2)), (RD, (1, 2))], "thorough"))
+    pre, extracted = {}, {}
+    for where, fx, rel in ((WH, "impl_horzcat_fxn", "src/interpreter/src/stdlib/horzcat.rs"), (WV, "impl_vertcat_fxn", "src/interpreter/src/stdlib/vertcat.rs")):
+        t_, h_ = extract_dispatch_fn(read_repo(rel), fx, rel)
+        pre[where] = t_
+        extracted[fx] = h_
     return {
         "harnesses": hs,
+        "incrate_prelude": pre,
+        "extracted": extracted,
         "explanation": "Kani/CBMC over impl_horzcat_fxn / impl_vertcat_fxn (pattern tables + allocation) and the concatenation structs with their "
                        "CopyMat kernels, blocks symbolic, shapes concrete",
         "bounds": "1-3 blocks per call, results up to 3x3, element kind f64 (u8 for two cases)",
